@@ -41,7 +41,7 @@ def uintRequest (kv : KV) : Option String := do
   let ws ← parseWords? kv
   match UniformInt.tryNew t (t.ofInt lo) (t.ofInt hi) (incl != 0) with
   | .error _ =>
-    if via == "try" || via == "sampler" || via == "utrait" then pure "err:EmptyRange" else pure "panic"
+    if via == "try" || via == "sampler" || via == "utrait" || via == "serde" || via == "serdesampler" then pure "err:EmptyRange" else pure "panic"
   | .ok d =>
     pure (showResult ws.length (fun vs => commaInts (vs.map t.toInt)) (repeatDraw (UniformInt.sample t d) n ws))
 
